@@ -212,8 +212,23 @@ where
 				batch.commit()?;
 			}
 
-			// Now do the actual locking
-			tx_lock_outputs(w, keychain_mask, &sl)?;
+			// Now do the actual locking. The log entry created here records which payment proof
+			// was asked for: take that from the original request, never from the reply
+			let mut lock_sl = sl.clone();
+			lock_sl.payment_proof = match args.payment_proof_recipient_address {
+				Some(ref a) => {
+					let idx = context.payment_proof_derivation_index.unwrap_or(0);
+					let sk = address::address_from_derivation_path(&keychain, &parent_key_id, idx)?;
+					let sender_address = crate::util::OnionV3Address::from_private(&sk.0)?;
+					Some(crate::slate::PaymentInfo {
+						sender_address: sender_address.to_ed25519()?,
+						receiver_address: a.pub_key,
+						receiver_signature: None,
+					})
+				}
+				None => None,
+			};
+			tx_lock_outputs(w, keychain_mask, &lock_sl)?;
 		}
 
 		// Add our contribution to the offset
